@@ -87,8 +87,10 @@ CLAIMED = {
          "and constraint drops; failure is returned only when no such valuation exists (FDComp: post_constraint_C, post_domain_C, "
          "run_constraints_C). The pruning intervals contain every solution value (all signs, saturation, corner hull, quotient only for "
          "non-negative domains), and labeling enumerates each domain value once. `==` between domain variables loses no solution either "
-         "(FDEq.state_unify_C: the domain of each newly bound variable is intersected into the term it was bound to). Not proved: the lift "
-         "through the search (fairness) and labeling to whole programs; completeness and uniqueness over whole programs are decided "
+         "(FDEq.state_unify_C: the domain of each newly bound variable is intersected into the term it was bound to). For whole programs "
+         "without recursion and before labeling (domains, all constraints, ==, !=, interleaving conjunction/disjunction, fresh): every "
+         "solution of the reading solves an answer state that is delivered after finitely many steps unless an engine step errs first "
+         "(Complete0.complete0_delivered). Not proved: the lift through labeling (onceo) and recursion, and uniqueness; completeness and uniqueness over whole programs are decided "
          "against brute force (query variables, lists, compounds, hidden variables).",
          "6/C17", "Coq proof that no state operation loses a solution (all constraint kinds, any operands) + brute-force projection oracle + differential correspondence",
          "The whole-program lift of completeness (search fairness, labeling order, uniqueness) is not mechanised."),
@@ -115,7 +117,10 @@ CLAIMED = {
          "PROGRAMS (soundness): for any goal, search kind, fuel and number of steps, every valuation that solves a delivered answer "
          "(its substitution and every stored disequality) satisfies the logical reading of the program (== equality, != difference, "
          "conjunction, disjunction, relation calls by their bodies) and solves the starting state. Completeness per operation: posting != and "
-         "re-checking the store lose no solution and fail only when none exists (DisunifyC, FDComp).",
+         "re-checking the store lose no solution and fail only when none exists (DisunifyC, FDComp). EXACTNESS for the programs of this "
+         "property (==, !=, interleaving conjunction and disjunction, fresh; from the initial state): the valuations solving the delivered "
+         "answers are exactly the valuations satisfying the logical reading - no wrong instance, and every solution solves an answer that "
+         "is delivered after finitely many steps unless an engine step errs first (Complete0.tree_program_exact).",
          "6/C02", "Coq proof: denotation of disequality posting, re-check, subsumption, normalisation + whole-program logical soundness of delivered answers (via the declarative semantics) + differential correspondence + ground-instance oracle",
          "The completeness direction for whole programs (every ground solution of the program is an instance of some answer) is checked by the ground oracle over a finite universe, not proved."),
  "C03": ("Theorems: reported constraints mention only reified variables of the answer; constraints() returns exactly the reported "
@@ -129,8 +134,11 @@ CLAIMED = {
  "C04": ("Proved: permuting the clauses of a disjunction permutes its admissible answers; two equalities (and two disequalities) posted in "
          "either order yield the same solutions and no order fails spuriously; the logical reading of a goal is independent of the order "
          "of conjuncts and clauses, and every solution of every delivered answer of any program satisfies it (so a reordering can neither "
-         "add solutions to an answer nor make an answer violate the reordered program). The bijection between answer multisets of whole "
-         "reordered programs (nothing lost) is checked (all permutations of small conjunctions, FD posting orders), not proved.",
+         "add solutions to an answer nor make an answer violate the reordered program). For the tree programs of this property (==, !=, "
+         "interleaving conjunction/disjunction, fresh) nothing is lost either: the solutions of the delivered answers are exactly the "
+         "valuations satisfying the order-free reading, so every solution of an answer of one ordering solves an answer that the other "
+         "ordering delivers after finitely many steps (Complete0; C04_same_solutions_any_order). The multiset bijection (multiplicities) "
+         "and FD posting orders are checked (all permutations of small conjunctions), not proved.",
          "6/C04", "Coq proof of order-freedom at the store/disjunction level and of the logical reading + whole-program soundness + permutation-group oracle on the implementation",
          "That a reordering loses no answers (completeness) is checked on generated programs, not proved."),
  "C12": ("Proved: the goal everyg solves is the conjunction (from_array) of the instantiated bodies in reverse order; an empty collection "
